@@ -122,12 +122,16 @@ pub struct Slot {
 }
 
 pub const HANG_MS: u64 = 30_000;
+const TICK_MS: u64 = 200;
+const HANG_TICKS: u64 = HANG_MS / TICK_MS;
 
-fn now_ms(t0: &Instant) -> u64 {
-    t0.elapsed().as_millis() as u64 + 1
-}
+/// Time as the watchdog thread experiences it: one tick per 200 ms sleep of
+/// that thread. If the whole process (or the virtual machine) is frozen, the
+/// watchdog is frozen with it and no time passes - a wall clock would report
+/// a hang that never happened.
+static TICKS: AtomicU64 = AtomicU64::new(1);
 
-fn worker(cfg: &BatchCfg, next: &AtomicU64, end: u64, skip_pass: bool, finds: &Mutex<Vec<Found>>, slot: &Slot, t0: &Instant) -> Stats {
+fn worker(cfg: &BatchCfg, next: &AtomicU64, end: u64, skip_pass: bool, finds: &Mutex<Vec<Found>>, slot: &Slot) -> Stats {
     let mut st = Stats::default();
     let prop = cfg.prop.as_str();
     loop {
@@ -141,7 +145,7 @@ fn worker(cfg: &BatchCfg, next: &AtomicU64, end: u64, skip_pass: bool, finds: &M
             }
             crate::sink::set_current_run(cfg.seed, i);
             slot.run.store(i, Ordering::Relaxed);
-            slot.since_ms.store(now_ms(t0), Ordering::Relaxed);
+            slot.since_ms.store(TICKS.load(Ordering::Relaxed), Ordering::Relaxed);
             let (case, out) = run_one(prop, cfg.seed, i, skip_pass);
             slot.since_ms.store(0, Ordering::Relaxed);
             st.evaluations += 1;
@@ -473,7 +477,19 @@ pub fn replay_seed(v: &Value, path: &Path) -> i32 {
         let (_case, out) = run_one(propc, seed, idx, skip);
         let _ = tx.send(out.viols.iter().filter(|x| x.prop == propc).map(|x| format!("{}: {}", x.oracle, x.detail)).collect::<Vec<_>>());
     });
-    match rx.recv_timeout(std::time::Duration::from_millis(HANG_MS)) {
+    // the same tick-based patience as the batch watchdog
+    let mut got = None;
+    for _ in 0..HANG_TICKS {
+        match rx.recv_timeout(std::time::Duration::from_millis(TICK_MS)) {
+            Ok(v) => {
+                got = Some(v);
+                break;
+            }
+            Err(std::sync::mpsc::RecvTimeoutError::Timeout) => {}
+            Err(std::sync::mpsc::RecvTimeoutError::Disconnected) => break,
+        }
+    }
+    match got.ok_or(()) {
         Err(_) => {
             println!("reproduced: run {} did not return within {} s", idx, HANG_MS / 1000);
             println!("VIOLATION property={} replay={}", prop, path.display());
@@ -546,16 +562,16 @@ pub fn run_batch(cfg: &BatchCfg) -> BatchResult {
             let slots: Vec<Slot> = (0..nthreads).map(|_| Slot { run: AtomicU64::new(0), since_ms: AtomicU64::new(0) }).collect();
             let done = std::sync::atomic::AtomicBool::new(false);
             let results: Vec<std::thread::Result<Stats>> = std::thread::scope(|s| {
-                let hs: Vec<_> = slots.iter().map(|slot| s.spawn(|| worker(cfg, &next, end, pass, &finds, slot, &t0))).collect();
+                let hs: Vec<_> = slots.iter().map(|slot| s.spawn(|| worker(cfg, &next, end, pass, &finds, slot))).collect();
                 if !cfg!(miri) {
                     // watchdog: a run that does not come back is a hang inside a converter call
                     s.spawn(|| {
                         while !done.load(Ordering::Relaxed) {
-                            std::thread::sleep(std::time::Duration::from_millis(200));
-                            let now = now_ms(&t0);
+                            std::thread::sleep(std::time::Duration::from_millis(TICK_MS));
+                            let now = TICKS.fetch_add(1, Ordering::Relaxed) + 1;
                             for slot in slots.iter() {
                                 let since = slot.since_ms.load(Ordering::Relaxed);
-                                if since != 0 && now > since + HANG_MS {
+                                if since != 0 && now > since + HANG_TICKS {
                                     report_hang(cfg, prop, slot.run.load(Ordering::Relaxed));
                                 }
                             }
